@@ -10,12 +10,14 @@ Theorem tptp_meaning F toks : wf_tptp F = true -> tptp_print F = Some toks ->
     forall (FI : fint) (M : pint) (e : env),
       tff_sat (tstruct_of FI M) (tenv_of e) g <-> csat FI M e F.
 Proof.
-  intros Hwf Hp. unfold tptp_print in Hp. destruct (no_panic F); [|discriminate].
+  intros Hwf Hp. unfold tptp_print in Hp.
   injection Hp as <-. exists (tff_of_formula F). split.
   - apply tff_read_print, Hwf.
   - intros FI M e. apply tff_of_formula_sat; [exact Hwf|apply env_rel_of].
 Qed.
 
-(* the only panic is the numeral isize::MIN *)
-Lemma tptp_print_total F : no_panic F = true -> tptp_print F = Some (print_formula F).
-Proof. unfold tptp_print. intros ->. reflexivity. Qed.
+(* rendering never panics (the only panic was the numeral isize::MIN: finding F3b, repaired) *)
+Lemma tptp_print_total F : tptp_print F = Some (print_formula F).
+Proof. reflexivity. Qed.
+Lemma tptp_format_total F : tptp_format F = Some (render (print_formula F)).
+Proof. reflexivity. Qed.
